@@ -42,7 +42,12 @@ Proved here - the lemmas the accept / reject simulation rests on:
   marked, an inserted node and the copy a move inserts are flagged and therefore invisible, a rename records the old
   tag, a text update records the old text (`C10_reject_invariant`); for a clean left document the rejected view is the
   document without its attributes.
-Not proved: moves in the accept simulation, the attribute annotations in the rejected view, the accepted view after `finalize` (wrappers as elements; text level only:
+* the accept simulation with moves (`Proofs/MapId.lean`, `Equiv.lean`, `Acc5.lean`): for a move the formatter marks the
+  node and inserts a renumbered copy while the patcher re-inserts the node itself, so the two sides stop sharing ids;
+  the patcher is shown not to depend on ids (`applyUniq_equiv`: every action accepted on a tree is accepted on any
+  one-to-one renaming of it, with related results), and the simulation is carried by the relation "the accepted view is
+  the patcher's tree with its ids renamed one-to-one" (`C09_accept_simulation`).
+Not proved: the attribute annotations in the rejected view, the accepted view after `finalize` (wrappers as elements; text level only:
 `C09_text_update_accept`), the composition at tree level (accept (format L S) = patch L S, reject (format L S) = L) - it
 is decided on every run by the projection oracles on the real output; and it is *false* of
 the code for the two recorded findings (text after a comment, tail of a deleted / moved node).
@@ -53,6 +58,7 @@ import XmlDiffModel.Proofs.FmtInv
 import XmlDiffModel.Proofs.Acc4
 import XmlDiffModel.Proofs.Changes
 import XmlDiffModel.Proofs.Rej2
+import XmlDiffModel.Proofs.Acc5
 
 namespace XmlDiffModel
 open Tree
@@ -233,6 +239,42 @@ example :
     (runFmt QName.plain exS0 (exScript ++ [.moveNode (exP [("a", 1), ("b", 1)]) (exP [("a", 1), ("x", 1)]) 0])).toOption.map
         (fun s => (Tree.ids (Rej.rej s.tree), C17.pls (Rej.rej s.tree))) =
       some (Tree.ids (Rej.bare exL), C17.pls (Rej.bare exL)) := by
+  decide +kernel
+
+open Acc TextMark in
+/-- **Accepting every change gives the patched document, all actions** - the same as
+`C09_accept_simulation_no_moves` for scripts with moves (`PathsOK`: every path stepwise unique on the patcher's tree
+at that point, no move into the moved node's own subtree - both true of differ scripts, C04 / C05): the handlers
+accept the script and the accepted view of the tree they leave is the patched tree with its node ids renamed
+one-to-one (a moved subtree carries the fresh ids of the copy the formatter inserted). -/
+theorem C09_accept_simulation (qn : QName) (ft : List Str) (L : Tree) (nx : Nat) (segs : List (List Seg))
+    (w : Bool) (script : List Action) (p' : PState)
+    (hclean : CleanT L) (hn : (Tree.ids L).Nodup) (hfresh : ∀ i ∈ Tree.ids L, i < nx)
+    (hst : ∀ a ∈ script, NoComment a ∧ PlainNames a ∧ TextsOK a)
+    (hpaths : PathsOK qn ⟨L, nx⟩ script)
+    (hor : OracleOK qn { tree := L, next := nx, ph := phInit [] ft, segs := segs, useReplace := false, wsText := w } script)
+    (hp : runUniq qn ⟨L, nx⟩ script = .ok p') :
+    ∃ s' σ, runFmt qn { tree := L, next := nx, ph := phInit [] ft, segs := segs, useReplace := false, wsText := w }
+        script = .ok s' ∧ acc (cln accS) s'.tree = MapId.mapId σ p'.tree ∧ MapId.InjOn σ (Tree.ids p'.tree) := by
+  have hb : Base (phInit [] ft) := by
+    have := base_history [] ft [] (by
+      show (phInit [] ft).counter < 0x110000
+      have : (phInit [] ft).counter = phStart + 6 := rfl
+      rw [this]; decide)
+    exact this
+  have htok : TOK { tree := L, next := nx, ph := phInit [] ft, segs := segs, useReplace := false, wsText := w } :=
+    ⟨hn, hfresh, isGhost_of_clean L hclean⟩
+  obtain ⟨s', h1, ⟨σ, r⟩, _⟩ := run_sim_moves qn script _ ⟨htok, hb, rfl⟩ L nx (simRel_init _ htok hclean) hst hpaths hor
+    p' hp
+  exact ⟨s', σ, h1, r.eq, r.inj⟩
+
+/-- The conclusion of `C09_accept_simulation` on the concrete script with a move added: the accepted view has the
+payloads, in document order, of the patched tree. -/
+example :
+    (runFmt QName.plain exS0 (exScript ++ [.moveNode (exP [("a", 1), ("b", 1)]) (exP [("a", 1), ("x", 1)]) 0])).toOption.map
+        (fun s => C17.pls (Acc.acc (Acc.cln Acc.accS) s.tree)) =
+      (runUniq QName.plain ⟨exL, 20⟩ (exScript ++ [.moveNode (exP [("a", 1), ("b", 1)]) (exP [("a", 1), ("x", 1)]) 0])).toOption.map
+        (fun p => C17.pls p.tree) := by
   decide +kernel
 
 /-- Non-vacuity of `C08_output_placeholder_free`: the handlers accept a text update with a delete + insert answer. -/
